@@ -1293,17 +1293,20 @@ class Store:
         # find the process and topology updates
         for path, process in source_process_paths:
             process_path = target_path + path
-            process_updates.append((
-                process_path, process.value))
             topology_updates.append((
                 process_path, process.topology))
             if process.value.is_step():
+                # a step is reported as a step only: reporting it as a
+                # process too would register it twice
                 step_updates.append((
                     process_path, process.value))
-                # Note that process.flow may be None, indicating no
-                # flow.
-                flow_updates.append((
-                    process_path, process.flow))
+                # process.flow is None for a step without a flow entry
+                if process.flow is not None:
+                    flow_updates.append((
+                        process_path, process.flow))
+            else:
+                process_updates.append((
+                    process_path, process.value))
 
         self._delete_path(source_path)
 
